@@ -21,7 +21,7 @@ U64, U32 = 1 << 64, 1 << 32
 
 RULE = ("ntt120: explicit values through b_from_znx64(+masked)/c_from_znx64/c_from_b/b_to_znx128/idft_consume CRT/"
         "vec_mat{1col,1col_x2,2cols_x2}_product_bbc/bbb/baa/add_bbb/add_ccc/NttAdd..NttNegateAssign/split_precompmul/modq_red/"
-        "modq_pow and the n=1 HAL pipeline; generic functions for Primes29/30/31, trait forms on NTT120Ref and NTT120Avx; "
+        "modq_pow, ntt_ref/intt_ref (n = 1 … 1024, whole tables compared for n ≤ 1024) and the n=1 HAL pipeline; generic functions for Primes29/30/31, trait forms on NTT120Ref and NTT120Avx; "
         "boundary classes 0, ±1, ±2^62, i64::MIN/MAX, k·q_j+d, ±Q/2±d, all-max lazy residues, ell up to 9999; "
         "per-value counting for per-value operations; distinct = (op, target, value class, ell class)")
 
@@ -176,7 +176,36 @@ def csv(v):
 def case(rng, quick=True):
     """-> (line, meta) ; meta: op, p, label, classes (one per counted value), data for the oracle"""
     op = rng.choice(["bfrom", "bfrom", "bfromm", "cfrom", "cfromb", "bto", "bto", "consume", "bbc", "bbc", "bbcx2", "bbc2c", "bbb",
-                     "baa", "lazy", "lazy", "addccc", "prim", "pipe", "pipe"])
+                     "baa", "lazy", "lazy", "addccc", "prim", "pipe", "pipe", "xform", "xform", "xform"])
+    if op == "xform":
+        # ntt_ref / intt_ref with a fresh table (NttDFTExecute on NTT120Ref / NTT120Avx for be=)
+        tok, p, lab = target(rng)
+        sub = rng.choice(["ntt", "intt"])
+        jc = rng.below(10)
+        j = rng.range(0, 4) if jc < 6 else (rng.range(5, 7) if jc < 9 or quick else rng.range(8, 10))
+        if not quick and rng.chance(1, 3):
+            j = rng.range(8, 10)
+        n = 1 << j
+        vc = rng.choice(["all-max", "zero", "random", "random", "b_from", "classes", "impulse"])
+        if vc == "all-max":
+            x = [U64 - 1] * (4 * n)
+        elif vc == "zero":
+            x = [0] * (4 * n)
+        elif vc == "random":
+            x = [rng.below(U64) for _ in range(4 * n)]
+        elif vc == "b_from":
+            x = []
+            for _ in range(n):
+                v = i64_value(rng, p)[0]
+                x += [v if v >= 0 else (v + (1 << 63)) + (qq - (1 << 63) % qq) for qq in PRIMES[p]]
+        elif vc == "impulse":
+            x = [0] * (4 * n)
+            i0 = rng.below(n)
+            for k in range(4):
+                x[4 * i0 + k] = rng.choice([1, PRIMES[p][k] - 1, U64 - 1])
+        else:
+            x = [u64_value(rng, p)[0] for _ in range(4 * n)]
+        return f"{sub} {tok} n={n} x={csv(x)}", {"op": sub, "p": p, "label": lab, "classes": [vc + f"/n={n}"], "n": n, "x": x}
     if op in ("bfrom", "bfromm"):
         tok, p, lab = target(rng)
         vals = [i64_value(rng, p) for _ in range(16)]
@@ -406,6 +435,33 @@ def oracle(meta, ans):
                 k = (i % 8) // 2
                 if got != (meta["x"][i] + meta["y"][i]) % q[k]:
                     return f"add_ccc wrong at index {i}"
+        elif op in ("ntt", "intt"):
+            r = ints(ans)
+            n, x = meta["n"], meta["x"]
+            if len(r) != len(x) or any(not (0 <= v < U64) for v in r):
+                return "transform output has the wrong shape"
+            if n <= 64:
+                lg = n.bit_length() - 1
+                brev = lambda i: int(format(i, f"0{lg}b")[::-1], 2) if lg else 0
+                omegas = {29: [78289835, 178519192, 483889678, 239808033], 30: [1070907127, 315046632, 309185662, 846468380],
+                          31: [1615402923, 1137738560, 154880552, 558784885]}[p]
+                for k in range(4):
+                    qq = q[k]
+                    w = pow(omegas[k], (1 << 16) // n, qq)
+                    if op == "ntt":
+                        # output position s holds the value of the input polynomial at w^(2·brev(s)+1)
+                        for s_ in range(n):
+                            pt = pow(w, 2 * brev(s_) + 1, qq)
+                            want = sum(x[4 * i + k] * pow(pt, i, qq) for i in range(n)) % qq
+                            if (r[4 * s_ + k] - want) % qq:
+                                return f"ntt output {s_} of prime {k} is not the evaluation at psi^(2·brev+1)"
+                    else:
+                        # applying the evaluation map to the output must give back the input (mod q)
+                        for s_ in range(n):
+                            pt = pow(w, 2 * brev(s_) + 1, qq)
+                            got = sum(r[4 * i + k] * pow(pt, i, qq) for i in range(n)) % qq
+                            if (got - x[4 * s_ + k]) % qq:
+                                return f"intt output of prime {k} does not evaluate back to the input at position {s_}"
         elif op == "pow":
             qq = meta["q"]
             e = meta["n"] % (qq - 1)
@@ -454,6 +510,19 @@ def gate(ctx, binp, drv):
                           "replay": f"printf '0 consts p={p}\\n' | harness/target/release/pvh ntt120"}, True)
             broken.append(f"constants Primes{p}")
     ctx.cov["ntt120_constants_compared"] = ["q", "omega", "crt", "logq", "bbc(h,s2l,s2h)", "bbb(h,s1h,s2l..s4h)", "baa(h,h_pow_red)", "ntt reduc(h,mask,cst)", "Q_SHIFTED"]
+    # 1a. whole NTT tables (bit sizes, level metadata, every packed twiddle) for n = 1 … 1024, three prime sets
+    tl = [f"{i} tab p={p} n={1 << j}" for i, (p, j) in enumerate((p, j) for p in (29, 30, 31) for j in range(0, 11))]
+    _, iout, _ = ctx.run_lines(binp, ["ntt120"], tl)
+    _, mout, _ = ctx.run_lines(drv, [], [l.replace(" tab", " ntt120 tab", 1) for l in tl])
+    for i, l in enumerate(tl):
+        a, b = ans_of(iout, i), ans_of(mout, i)
+        ctx.count_case(("ntt120-table", l.split(" ", 1)[1]), True)
+        if a != b or not a.startswith("fwd="):
+            ctx.disagreements += 1
+            ctx.violation("NTT120 table differs between the Rust and the Lean model", {"request": l, "implementation": a[:1500], "model": b[:1500],
+                          "replay": f"printf '0 {l.split(' ', 1)[1]}\\n' | harness/target/release/pvh ntt120"}, True)
+            broken.append("table " + l)
+    ctx.cov["ntt120_tables_compared"] = len(tl)
     # 1b. regression corpus (corpus/C07/*.case): boundary requests and the witnesses of the recorded observations
     import glob
     import os
